@@ -2,12 +2,12 @@
 package c08
 
 import (
-	"time"
-	"os"
 	"encoding/json"
 	"fmt"
+	"os"
 	"strings"
 	"testing"
+	"time"
 
 	"verif/mc/hres"
 	ss "verif/mc/specstep"
@@ -28,8 +28,8 @@ type runCfg struct {
 func build(cfg runCfg) (*ss.System, error) { return raftkvs.Build(cfg.Config, cfg.Seed, nil) }
 
 type replay struct {
-	Cfg  runCfg `json:"config"`
-	Path []ss.Move      `json:"path"`
+	Cfg  runCfg    `json:"config"`
+	Path []ss.Move `json:"path"`
 }
 
 func TestCheck(t *testing.T) {
@@ -169,6 +169,7 @@ func TestCheck(t *testing.T) {
 				samples = append(samples, map[string]any{"config": fmt.Sprint(cfg), "trace": sys.Render(r.PathTo(r.Leaves[len(r.Leaves)/2]))})
 			}
 		}
+		res.Assumptions = []string{"one label = one atomic step (state injection into a fresh real MPCalContext per step): the runtime gives this isolation only while no section combines a shared variable with an asynchronous mailbox commit (see the C16 known finding replicatedkv/assertion/get-overtaken-by-disconnect; raftkvs bootstrap has the same combination)", "links are FIFO per sender (the spec's ReliableFIFOLink written in Go, validated against TLC by C02): the relaxed mailboxes provide this only while no write timeout fires (see the C06 known finding relaxed/reordered-after-write-timeout)", "environment deviations (failure-detector answers, timeouts, netLen) are budgeted as described in DESIGN 8.5/8.9", "128-bit state hashing (collision probability negligible)"}
 		res.Coverage = map[string]any{"states": states, "transitions": trans, "traces_validated_against_impl": validated, "samples": samples, "configs": per, "exhaustive": exhaustive}
 		return res
 	})
